@@ -413,7 +413,17 @@ def run_shard(shard, tier, seed):
             t = make_target(ctl)
             with net.World(t, io_budget=10_000_000) as w:
                 d = pycomm3.LogixDriver("10.0.0.1")
+                t.cip_log.clear()
                 o = call(d.open)
+                # the Identity request sent while opening: a Micro800 has no backplane to route through, it is asked directly (UCMM); a
+                # chassis controller through an Unconnected Send along the driver's route
+                idreq = [x for x in t.cip_log if x["service"] == 1 and x["path"][:1] == [("class", 1)]]
+                want_tr = "ucmm" if pers == "m800" else "ucsend"
+                ok_tr = bool(idreq) and all(x["transport"] == want_tr and (x["route"] or []) == (want_route if want_tr == "ucsend" else []) for x in idreq)
+                rep.case(("open-identity", pers), outcome="ok" if ok_tr else "bad")
+                if not ok_tr:
+                    rep.violation("helper/plc-info-during-open", f"LogixDriver.open() on a {pers} controller: Identity request(s) went out as {[(x['transport'], x['route']) for x in idreq]!r}, expected {want_tr}",
+                                  {"case": ("current-route", pers, 0)})
                 for rnd in range(2):
                     t.cip_log.clear()
                     r = call(d.generic_message, service=1, class_code=1, instance=1, connected=False, unconnected_send=True, route_path=True)
